@@ -367,6 +367,59 @@ pub fn apply(src: &str, kind: &FaultKind, other: Option<&str>) -> Option<String>
             t.payload[l - 96..].copy_from_slice(&neg);
             Some(t.render())
         }
+        FaultKind::FooterReplaceRaw { hex } => {
+            let mut t = Tok::parse(src)?;
+            let cur = t.footer.as_ref()?.clone();
+            let raw = hex::decode(hex).ok()?;
+            if raw == cur {
+                return None;
+            }
+            t.footer = Some(raw);
+            Some(t.render())
+        }
+        FaultKind::SigFill { half, pattern } => {
+            let mut t = Tok::parse(src)?;
+            let p = t.proto()?;
+            if p.is_local() {
+                return None;
+            }
+            let sl = p.tail_len();
+            if t.payload.len() < sl {
+                return None;
+            }
+            let h = sl / 2;
+            const P384_N: [u8; 48] = [
+                0xff, 0xff, 0xff, 0xff, 0xff, 0xff, 0xff, 0xff, 0xff, 0xff, 0xff, 0xff, 0xff, 0xff, 0xff, 0xff, 0xff, 0xff, 0xff, 0xff, 0xff, 0xff, 0xff, 0xff, 0xc7, 0x63, 0x4d, 0x81, 0xf4, 0x37, 0x2d, 0xdf, 0x58, 0x1a,
+                0x0d, 0xb2, 0x48, 0xb0, 0xa7, 0x7a, 0xec, 0xec, 0x19, 0x6a, 0xcc, 0xc5, 0x29, 0x73,
+            ];
+            const ED_L: [u8; 32] = [
+                0xed, 0xd3, 0xf5, 0x5c, 0x1a, 0x63, 0x12, 0x58, 0xd6, 0x9c, 0xf7, 0xa2, 0xde, 0xf9, 0xde, 0x14, 0, 0, 0, 0, 0, 0, 0, 0, 0, 0, 0, 0, 0, 0, 0, 0x10,
+            ];
+            let fill: Vec<u8> = match (*pattern, p) {
+                (0, _) => vec![0u8; h],
+                (1, _) => vec![0xffu8; h],
+                (2, Proto::V3P) => P384_N.to_vec(),
+                (3, Proto::V3P) => {
+                    let mut v = P384_N.to_vec();
+                    v[47] -= 1;
+                    v
+                }
+                (2, Proto::V2P | Proto::V4P) => ED_L.to_vec(),
+                (3, Proto::V2P | Proto::V4P) => {
+                    let mut v = ED_L.to_vec();
+                    v[0] -= 1;
+                    v
+                }
+                _ => (0..h).map(|k| (k as u8).wrapping_mul(37) ^ 0x5a).collect(),
+            };
+            let l = t.payload.len();
+            let at = l - sl + if *half == 0 { 0 } else { h };
+            if t.payload[at..at + h] == fill[..] {
+                return None;
+            }
+            t.payload[at..at + h].copy_from_slice(&fill);
+            Some(t.render())
+        }
         FaultKind::RandomEdit { seg, at, hex } => {
             let mut t = Tok::parse(src)?;
             let bytes = hex::decode(hex).ok()?;
